@@ -30,6 +30,7 @@ ASSUMPTIONS = [
     "a simulated process gets a pickle round-trip copy of its line, runs it, reports (exception, poisoned) and exit code 0; abrupt death of a worker (non-zero exit code) is not modelled",
     "real: OS schedules are sampled, not enumerated; a watchdog of 90 s (cases normally take < 2 s) marks an attempt inconclusive; only three consecutive expiries on the same case are reported as a hang",
     "filters raise Exception subclasses that survive pickling; items are never None (the poison pill)",
+    "through CobaMultiprocessor the wrapped filter always returns an iterator of outputs (as ProcessTasks does)",
 ]
 
 def expected_of(case):
@@ -232,6 +233,10 @@ def real_cases(draw, tier):
     c.pop("choices")
     c["via"] = draw(st.sampled_from(["pipes", "pipes", "coba", "read_wait"]))
     c["delay"] = draw(st.sampled_from([0.0, 0.0, 0.01]))
+    if c["via"] == "coba":
+        # CobaMultiprocessor's callers (ProcessTasks) return iterators of outputs; a bare value would be flattened by its
+        # worker-side `yield from`, so every item gets an explicit generator output here
+        c["fan"] = {str(i): c["fan"].get(str(i), 1) for i in range(c["items"])}
     if c["via"] == "read_wait" and c["abandon"] is not None:
         c["via"] = "pipes"
     return c
